@@ -12,9 +12,9 @@ from vf import cstate_c45 as c45
 META = {
     'technique': 'Coq proof (invariant over all operation histories + step lemmas) on a hand-written shutdown model + per-step differential '
                  'correspondence with the real Cluster/Session/ControlConnection driven by a manual executor/scheduler',
-    'level_text': 'C45_shutdown_is_total, C45_no_new_connections and C45_requests_refused proved for any number of hosts and any history; '
-                  'C45_all_closed is stated in full and refuted in Coq by the replacement-during-shutdown witness (open finding C45-2, pool.py); '
-                  'its partial form (no such replacement) is checked on the implementation at every step of generated histories, not proved.',
+    'level_text': 'C45_all_closed (full statement: in every state after Cluster.shutdown every connection ever opened is closed, including '
+                  'replacements, control connections and connects finishing during/after the shutdown), C45_session_all_closed, '
+                  'C45_shutdown_is_total, C45_no_new_connections and C45_requests_refused proved for any number of hosts and any history.',
     'level_note': 'Partial by design: interpreter-exit hooks, thread joins and concurrent.futures executor semantics are replaced by a manual '
                   'executor (tasks queued before shutdown still run, submit after shutdown raises); one connection per pool; the trashed-connection '
                   'path of HostConnection.shutdown is not exercised (C12).',
@@ -77,8 +77,6 @@ def run(ctx):
                 break
         ctx.disagreement('model-vs-impl', 'Shutdown model and driver differ after step %d of %s (%d hosts): impl %r' % (lo, json.dumps(ops[:lo]), n, encs[lo - 1]),
                          case={'nhosts': n, 'ops': [list(o) for o in ops[:lo]]}, actual=encs[lo - 1])
-    if 'C45.open-after-cluster-shutdown.replacement-finished-after-pool-shutdown' not in seen:
-        ctx.disagreement('witness-not-reproduced', 'the Coq witness of C45_all_closed_refuted no longer reproduces on the driver (model is stale)', case='C45-2')
 
 
 def replay(ctx, rp):
